@@ -179,31 +179,32 @@ def lean_closure(prop_files):
 
 
 def audit_axioms(prop_id, prop_files):
-    """#print axioms for every property theorem. Returns (ok, per-theorem dict, log)."""
+    """#print axioms for every property theorem. Returns (ok, per-theorem dict, log). One Lean run per property module: modules of
+    different cores never have to be importable together."""
     thms = property_theorems(prop_files)
-    src = "".join(f"import {mod}\n" for mod, _ in thms)
-    for _, names in thms:
-        for n in names:
-            src += f"#print axioms {n}\n"
     adir = LEAN / ".lake" / "audit"
     adir.mkdir(parents=True, exist_ok=True)
-    f = adir / f"Audit_{prop_id}_{os.getpid()}.lean"
-    f.write_text(src)
-    try:
-        with Lock():
-            rc, out = sh(["lake", "env", "lean", str(f)], cwd=LEAN, timeout=1800)
-    finally:
-        f.unlink(missing_ok=True)
-    per = {}
-    for m in re.finditer(r"'([^']+)' depends on axioms: \[([^\]]*)\]", out):
-        per[m.group(1)] = [a.strip() for a in m.group(2).replace("\n", " ").split(",") if a.strip()]
-    for m in re.finditer(r"'([^']+)' does not depend on any axioms", out):
-        per[m.group(1)] = []
+    per, logs, rcs = {}, [], []
+    for k, (mod, names) in enumerate(thms):
+        src = f"import {mod}\n" + "".join(f"#print axioms {n}\n" for n in names)
+        f = adir / f"Audit_{prop_id}_{k}_{os.getpid()}.lean"
+        f.write_text(src)
+        try:
+            with Lock():
+                rc, out = sh(["lake", "env", "lean", str(f)], cwd=LEAN, timeout=1800)
+        finally:
+            f.unlink(missing_ok=True)
+        rcs.append(rc)
+        logs.append(out)
+        for m in re.finditer(r"'([^']+)' depends on axioms: \[([^\]]*)\]", out):
+            per[m.group(1)] = [a.strip() for a in m.group(2).replace("\n", " ").split(",") if a.strip()]
+        for m in re.finditer(r"'([^']+)' does not depend on any axioms", out):
+            per[m.group(1)] = []
     names = [n for _, ns in thms for n in ns]
     bad = {n: a for n, a in per.items() if not set(a) <= ALLOWED_AXIOMS}
     missing = [n for n in names if n not in per]
-    ok = rc == 0 and not bad and not missing
-    return ok, per, (out if not ok else "")
+    ok = all(rc == 0 for rc in rcs) and not bad and not missing
+    return ok, per, ("\n".join(logs) if not ok else "")
 
 
 class Driver:
